@@ -175,6 +175,9 @@ def filter_init_cases(mk):
         cases.append(mk(M, FLOAT))
     for M in ('OVERLAP', 'EDIT_DISTANCE'):
         cases += [mk(M, INT), mk(M, FLOAT)]
+    # measure names are case-insensitive at the constructors (documented): the same contract for other spellings
+    for M in ('edit_distance', 'Edit_Distance', 'overlap', 'Overlap'):
+        cases.append(mk(M, INT))
     return cases
 
 
